@@ -187,11 +187,11 @@ def verdicts(ctx, run, sched, hz, obs, stop, early, src, case):
         hc = obs.hook_calls[0]
         if hc['unfinished'] or hc['background']:
             mech = "hook-before-work-settled"
-            if not hc['background'] and hc['unfinished'] and all(u.endswith('@aclose') for u in hc['unfinished']) and \
-                    not any(label_keys(u) in streamed_key_paths(src) for u in hc['unfinished']):
-                # cancelled work was reading a plain (not streamed) list from an async iterator: the iterator's close() is
-                # started (complete_async_iterator_value awaits it while unwinding) but the hook does not wait for it
-                mech += ":plain-list-source-still-closing-when-cancelled-work-is-declared-settled"
+            if not hc['background'] and hc['unfinished'] and all(u.endswith('@aclose') for u in hc['unfinished']):
+                # the only thing still running is the close() of a source that takes time: it has been started by the clean-up
+                # (complete_async_iterator_value while unwinding, a stream item queue's abort callback) but the hook does not
+                # wait for it on every path
+                mech += ":source-still-closing:" + ("stream-source" if any(label_keys(u) in streamed_key_paths(src) for u in hc['unfinished']) else "plain-list-source")
             elif not hc['background'] and hc['unfinished'] and all(under_null(obs, u) for u in hc['unfinished']):
                 # same root cause as the known finding: a stream source opened by work that had been left to settle in
                 # the background after the response was delivered; with early execution its producer is still reading
